@@ -31,7 +31,8 @@ Hexes == { Hex(<<0>>), Hex(<<4, 1>>), Hex(<<7, 15>>), Hex(<<8, 0>>), Hex(<<15, 1
 RawChars == { Ch(97), Ch(65), Ch(48), Ch(32), Ch(126), Ch(36), Ch(64), Ch(96), Ch(39), Ch(34),
               Ch(233), Ch(8364), Ch(65535), Ch(65536), Ch(128512), Ch(1114111) }
 Ucns == { Ucn(233, 4), UcnUp(233, 8), Ucn(8364, 4), Ucn(36, 4), Ucn(65535, 4), Ucn(65536, 8), Ucn(128512, 8),
-          UcnUp(43981, 4), UcnUp(1114111, 8) }
+          UcnUp(43981, 4), UcnUp(1114111, 8),
+          Ucn(65, 4), Ucn(55296, 4), Ucn(57343, 4), Ucn(1114112, 8) }     \* not allowed by 6.4.3p2: never part of a defined literal
 CharAlphabet == SimpleEscs \cup Octs \cup Hexes \cup RawChars \cup Ucns
 Context == { Ch(97), Ch(49), Ch(102), Ch(56), Ch(233), Esc(110, 10), Oct(<<0>>), Hex(<<4, 1>>) }
 CatAlphabet == IF Small THEN { Ch(49), Ch(233), Ch(128512), Hex(<<4>>) }
@@ -58,6 +59,12 @@ StrCase(ps, l) ==
   [kind |-> "str", fam |-> fam, pfx |-> P, pps |-> Map(ps, LAMBDA pc : pc.p), kinds |-> Kinds(ps), src |-> StrSrc(ps),
    esize |-> ElemW(P) \div 8, neg |-> IF ElemSg(P) THEN 1 ELSE 0, size |-> Len(l.bytes), bytes |-> l.bytes]
 Write(rec) == Emit => CSVWrite("%1$s", <<ToJson(rec)>>, IOEnv.OUT)
+(* literals that violate a constraint (6.4.3p2, 6.4.4.4p9): written out as "a diagnostic is required" cases *)
+Violation(p, it) ==
+  IF it.k = "ucn" /\ ~UcnAllowed(it.c) THEN "ucn-not-allowed"
+  ELSE IF it.k \in {"oct", "hex"} /\ Bad \in {ItemElems(p, it)[j] : j \in DOMAIN ItemElems(p, it)} THEN "escape-out-of-range"
+  ELSE "none"
+DiagCase(cls, p, it, src) == [kind |-> "diag", cls |-> cls, pfx |-> p, kinds |-> <<it.k>>, src |-> src]
 
 ChrMake(p, it) ==
   /\ fam = "chr" /\ pieces = <<>>
@@ -65,6 +72,7 @@ ChrMake(p, it) ==
   /\ UNCHANGED fam
   /\ lit' = IF ChrDef(pieces') THEN [def |-> TRUE, val |-> CharValue(p, it)] ELSE Undef
   /\ lit'.def => Write(ChrCase(pieces', lit'))
+  /\ Violation(p, it) # "none" => Write(DiagCase(Violation(p, it), p, it, CharSrc(p, it)))
 
 MaxPieces == IF fam = "cat" THEN 3 ELSE 1
 MaxItems  == IF fam = "cat" THEN 1 ELSE 2
@@ -84,6 +92,8 @@ StrAdd(it) ==
   /\ UNCHANGED fam
   /\ lit' = IF StrDefined(pieces') THEN [def |-> TRUE, bytes |-> StrBytes(pieces')] ELSE Undef
   /\ lit'.def => Write(StrCase(pieces', lit'))
+  /\ (fam = "str" /\ LastPc.items = <<>> /\ Violation(LastPc.p, it) # "none") =>
+        Write(DiagCase(Violation(LastPc.p, it), LastPc.p, it, StrSrc(pieces')))
 
 Init == fam \in Fams /\ pieces = <<>> /\ lit = Undef
 Next == \/ \E p \in {"", "u", "U", "L"}, it \in CharAlphabet : ChrMake(p, it)
